@@ -497,6 +497,14 @@ def gc_corpus():
     return _GC_CORPUS
 
 
+def gc_chain_corpus():
+    """grammars on which gc has to remove a CHAIN of orphaned states (a state whose only
+    predecessor is itself unreachable); mined like gc_corpus with a liveness-by-in-degree gc"""
+    import json, os
+    f = os.path.join(os.path.dirname(os.path.dirname(os.path.abspath(__file__))), "corpus", "gc_chain_grammars.json")
+    return json.load(open(f)) if os.path.exists(f) else []
+
+
 def from_text(src):
     """parse a rendered grammar (the subset render() produces) back into a Gram"""
     lines = [l for l in src.splitlines() if l.strip()]
